@@ -6,7 +6,7 @@
 
 import gzip
 import logging
-from typing import IO, Optional
+from typing import IO, List, Optional
 
 from maflib.header import MafHeader
 from maflib.logger import Logger
@@ -83,6 +83,7 @@ class MafWriter(object):
         # set the scheme and write the column names if not already written
         if not self._scheme:
             column_names = [str(key) for key in record.keys()]
+            self.__check_column_names(column_names)
             self._scheme = NoRestrictionsScheme(column_names=column_names)
             self._handle.write(
                 MafRecord.ColumnSeparator.join(self._scheme.column_names()) + "\n"
@@ -104,6 +105,21 @@ class MafWriter(object):
             self._handle.write(str(record) + "\n")
 
         return self
+
+    @staticmethod
+    def __check_column_names(column_names: List[str]) -> None:
+        """The column names are written on one line, separated by the column
+        separator, after the header lines: names that would not be read back
+        as they are cannot be written."""
+        for index, name in enumerate(column_names):
+            if any(char in name for char in (MafRecord.ColumnSeparator, "\r", "\n")):
+                raise ValueError(
+                    f"Column name {name!r} contains a column or line separator"
+                )
+            if index == 0 and name.startswith(MafHeader.HeaderLineStartSymbol):
+                raise ValueError(
+                    f"The first column name {name!r} would be read as a header line"
+                )
 
     def write(self, record: MafRecord) -> 'MafWriter':
         """Write a MafRecord."""
